@@ -173,7 +173,9 @@ static void emitFunction(raw_ostream &o, const Function &F, const DataLayout &DL
     << (F.hasLocalLinkage() ? "true" : "false")
     << ",\"declaration\":" << (F.isDeclaration() ? "true" : "false")
     << ",\"vararg\":" << (F.isVarArg() ? "true" : "false")
-    << ",\"ret_type\":\"" << esc(tstr(F.getReturnType())) << "\"";
+    << ",\"ret_type\":\"" << esc(tstr(F.getReturnType())) << "\""
+    << ",\"readonly\":" << (F.onlyReadsMemory() ? "true" : "false")
+    << ",\"readnone\":" << (F.doesNotAccessMemory() ? "true" : "false");
   if (auto *sp = F.getSubprogram()) {
     o << ",\"file\":\"" << esc(sp->getFilename()) << "\",\"dir\":\"" << esc(sp->getDirectory())
       << "\",\"line\":" << sp->getLine();
